@@ -149,17 +149,27 @@ def index_domain(run, fx):
             run.selftest("index-domain/" + fn + "/evaluable", False, True)
 
 
-ALL = {"guards": guards, "index_domain": index_domain, "follow": follow, "store": store, "downgrade": downgrade, "ambient": ambient, "panics": panic_sites, "locks": locks,
+def exact(run, fx):
+    for fn, exp in (("exact_guard_ok", False), ("exact_guard_bad_extra", True)):
+        b = fx.bodies[F + fn]
+        bb = _call_bb(b, "::act")
+        extra = D.extra_guards(fx, b, bb, [lambda a: a[0] == "bool" and a[2] is False and K.mentions_field(a[1][0], "flag")])
+        run.selftest("exact-guard-set/" + fn, bool(extra), exp)
+    fm = D.field_mutations(fx, F + "Mm")
+    run.selftest("mutation-map/insert+remove+assign", sorted(fm.get("seen", {})) == ["insert", "remove"] and sorted(fm.get("n", {})) == ["assign"], True)
+
+
+ALL = {"guards": guards, "exact": exact, "index_domain": index_domain, "follow": follow, "store": store, "downgrade": downgrade, "ambient": ambient, "panics": panic_sites, "locks": locks,
        "tables": tables, "intervals": intervals, "provenance": provenance, "coverage": coverage}
 
 # which detector families each property's rules rely on
 USES = {
-    "C01": ["guards", "follow", "tables", "provenance"], "C03": ["guards", "follow", "store", "provenance"], "C04": ["guards", "tables"],
-    "C05": ["guards", "follow", "provenance"], "C06": ["guards", "follow"], "C07": ["guards", "follow"], "C08": ["guards", "follow", "downgrade", "provenance"],
-    "C09": ["guards", "tables", "panics", "provenance"], "C10": ["guards", "panics", "locks", "intervals"], "C11": ["guards", "intervals"],
-    "C12": ["guards", "tables", "coverage", "provenance"], "C13": ["guards", "follow", "provenance"], "C14": ["guards", "follow", "provenance"],
-    "C15": ["guards", "tables", "index_domain"], "C16": ["guards", "ambient", "provenance"], "C17": ["guards", "ambient", "panics", "follow"],
-    "C18": ["guards", "panics", "provenance", "coverage"], "C19": ["guards"], "C20": ["guards", "ambient"],
+    "C01": ["guards", "exact", "follow", "tables", "provenance"], "C03": ["guards", "exact", "follow", "store", "provenance"], "C04": ["guards", "exact", "tables"],
+    "C05": ["guards", "exact", "follow", "provenance"], "C06": ["guards", "exact", "follow"], "C07": ["guards", "exact", "follow"], "C08": ["guards", "exact", "follow", "downgrade", "provenance"],
+    "C09": ["guards", "exact", "tables", "panics", "provenance"], "C10": ["guards", "exact", "panics", "locks", "intervals"], "C11": ["guards", "exact", "intervals"],
+    "C12": ["guards", "exact", "tables", "coverage", "provenance"], "C13": ["guards", "exact", "follow", "provenance"], "C14": ["guards", "exact", "follow", "provenance"],
+    "C15": ["guards", "exact", "tables", "index_domain"], "C16": ["guards", "exact", "ambient", "provenance"], "C17": ["guards", "exact", "ambient", "panics", "follow"],
+    "C18": ["guards", "exact", "panics", "provenance", "coverage"], "C19": ["guards"], "C20": ["guards", "exact", "ambient"],
 }
 
 
